@@ -31,6 +31,10 @@ D2R = sp.pi / 180
 
 
 MUTANTS = [
+    ("translated RA snapped to 0 near 360", "AegeanTools/angle_tools.py",
+     "    ra_out = ra + np.degrees(np.arctan2(y, x))\n",
+     "    ra_out = (ra + np.degrees(np.arctan2(y, x))) % 360\n"
+     "    if np.isclose(ra_out, 360):\n        ra_out = 0.\n", "C17-R3"),
     ("haversine cos term", "AegeanTools/angle_tools.py",
      "    a += np.cos(np.radians(dec1)) \\\n        * np.cos(np.radians(dec2"
      ")) \\", "    a += np.cos(np.radians(dec1)) \\\n        * np.cos("
@@ -116,6 +120,15 @@ def run(ctx):
         "a dtype narrower than float64 is used", floor=8)
     r7_purity(ctx, prog, "C17-R7", ("gcd", "bear", "translate", "dist_rhumb",
                                     "bear_rhumb", "translate_rhumb"))
+
+
+def _snapped(fi):
+    """`if <test>: name = <constant>` statements of a formula function"""
+    return [st for st in walk_no_nested(fi.node) if isinstance(st, ast.If)
+            and len(st.body) == 1 and isinstance(st.body[0], ast.Assign)
+            and isinstance(st.body[0].value, ast.Constant)
+            and isinstance(st.body[0].value.value, (int, float))
+            and not st.orelse]
 
 
 def formulae(ctx, prog, R):
@@ -225,7 +238,22 @@ def formulae(ctx, prog, R):
              "sin d sin dec'))")
     fi = prog.func("angle_tools.translate")
     ra, dec, r, t = sp.symbols("ra dec r theta", real=True)
-    E = sym.inline(prog, fi, [ra, dec, r, t])
+    snaps = _snapped(fi)
+    for st in snaps:
+        ctx.check(R["R3"], fi, "no computed value replaced by a constant: " +
+                  norm(st, 50), False,
+                  "under `%s` the computed coordinate is replaced by the "
+                  "constant %s: with a tolerance test (np.isclose has "
+                  "rtol=1e-5, i.e. 13 arcsec at 360 deg) every end point in "
+                  "that strip is moved, so lengths and angles of vectors "
+                  "ending there are wrong" %
+                  (norm(st.test, 40), norm(st.body[0].value)), node=st)
+    if snaps:
+        return
+    try:
+        E = sym.inline(prog, fi, [ra, dec, r, t])
+    except sym.Untranslatable as e:
+        raise AnalysisError("%s: %s" % (R["R3"], e))
     if not (isinstance(E, tuple) and len(E) == 2):
         raise AnalysisError("C17-R3: translate does not return a pair")
     ra_out, dec_out = E
